@@ -167,7 +167,11 @@ def find_fn(stripped, name, owner=None, nth=0, cfg_env=LINUX_X86_64):
         end = match_brace(stripped, i)
         if not attrs_enabled(stripped, m.start(), cfg_env):
             continue
-        if owner is not None:
+        if owner == '':
+            # a free function: not inside an impl / trait / mod block
+            if enclosing_header(stripped, m.start()) is not None:
+                continue
+        elif owner is not None:
             hdr = enclosing_header(stripped, m.start())
             if hdr is None or not re.search(owner, hdr, re.S):
                 continue
